@@ -72,7 +72,7 @@ fn batch_comp(r: &BatchResponse<'_, Box<RawValue>>) -> Comp {
 			Err(eo) => Err((eo.code(), eo.message().to_string(), eo.data().map(|d| d.get().to_string()))),
 		})
 		.collect();
-	Comp::Batch { succ: r.num_successful_calls(), fail: r.num_failed_calls(), entries }
+	Comp::Batch { succ: r.num_successful_calls(), fail: r.num_failed_calls(), view: jrpc_harness::client_mock::batch_view(r), entries }
 }
 
 // ---------------------------------------------------------------------------------------------
@@ -150,7 +150,7 @@ fn typed_show(ty: &str, result: &str) -> Option<String> {
 /// `reply` is what the server sent, `got` is what `batch_request` returned.
 /// `ty`: the caller's result type for typed batches (entries are then the decoded values).
 fn batch_oracle(start: u64, n: usize, reply: &str, got: &Comp, ty: Option<&str>) -> Result<(), String> {
-	let Comp::Batch { succ, fail, entries } = got else {
+	let Comp::Batch { succ, fail, entries, .. } = got else {
 		return Ok(()); // the whole call failed: allowed by the statement for bad replies; good replies are checked by the caller
 	};
 	if entries.len() != n {
